@@ -211,12 +211,22 @@ class SchemaValidationContext:
         if not default_input:
             return
 
+        if not is_input_type(input_value.type):
+            # The type has already been reported as not being an input type,
+            # a default value cannot be validated against it.
+            return
+
         errors: list[tuple[GraphQLError, list[str | int]]] = []
-        validate_default_input(
-            default_input,
-            input_value.type,
-            lambda error, path: errors.append((error, path)),
-        )
+        try:
+            validate_default_input(
+                default_input,
+                input_value.type,
+                lambda error, path: errors.append((error, path)),
+            )
+        except TypeError:
+            # A nested input field has a type that is not an input type,
+            # which is reported when validating that input object type.
+            return
 
         if not errors:
             return
